@@ -392,6 +392,7 @@ func TestVerifC16(t *testing.T) {
 		})
 	}
 	c16ConcurrentEdges(m, vk.NewRand(0xC16C))
+	c16ReportInsideWindow(m, vk.NewRand(0xC16D))
 	m.Require("concurrent_revival_rounds")
 	m.Require(
 		"threshold_reached_exactly_probe_fail_tcp", "threshold_reached_exactly_probe_fail_dnsudp",
